@@ -196,7 +196,9 @@ const ERRS: &[i32] = &[libc::EMFILE, libc::ECONNABORTED, libc::ENOMEM, libc::EPI
 
 impl<'c> Exec<'c> {
     fn on(&self, p: &str) -> bool {
-        self.prop == p
+        // C05 (every completion reaches its operation once, in publication
+        // order) is judged by the same per-operation FIFO as C02.
+        self.prop == p || (self.prop == "C05" && p == "C02")
     }
 
     fn fail(&mut self, prop: &str, kind: &str, msg: String) {
